@@ -19,6 +19,7 @@ from harness.common import Reporter, Tooling
 class Ctx:
     def __init__(self, pid, tier, seed):
         self.deepen = False
+        self.soft_broken = []    # textual ties (translated functions, regular-expression text) that no longer check: quick tier
         self.pid = pid
         self.tier = tier
         self.seed = seed
@@ -117,11 +118,12 @@ def run_property(pid, tier, seed):
                 ctx.proof_broken.append({"what": "axiom audit failed", "theorem": n, "axioms": a})
             thm_info.append({"name": n, "module": m, "checked": good, "axioms": a,
                              "partial": n.endswith("_partial")})
-    # 3a. function-level tie: the agreement theorems between the functions TRANSLATED from the Python source on this
+    # 3a. textual ties.  (i) function-level tie: the agreement theorems between the functions TRANSLATED from the Python source on this
     # run (Gen/Py*.lean, harness/translate_layerb.py) and the hand-written model functions.  A broken agreement is a
     # broken proof obligation in the thorough tier; in the quick tier (the check run on every change, where a harmless
     # rewrite of one of these functions must not raise an alarm by itself) it is recorded in the evidence and makes the
-    # correspondence sweep deeper (`ctx.deepen`), and only what that sweep finds is reported.
+    # correspondence sweep deeper (`ctx.deepen`), and only what that sweep finds is reported.  (ii) the text of the
+    # regular expressions (Scheme/RegexPins.lean) is treated the same way.
     function_tie = {}
     for m, names in getattr(mod, "TIE_THEOREMS", {}).items():
         ok, log, failed, cmd = common.lake_build([m])
@@ -149,7 +151,8 @@ def run_property(pid, tier, seed):
                 thm_info.append({"name": n, "module": m, "checked": False, "axioms": None})
         else:
             ctx.deepen = True
-            function_tie[m]["quick_tier"] = "not an alarm by itself: the correspondence sweep was deepened instead"
+            ctx.soft_broken.append(m)
+            function_tie[m]["quick_tier"] = "not an alarm by itself: the correspondence sweep and the search were deepened instead"
     # 3b. thorough tier: independent re-check of the compiled theorem modules
     rechecked = None
     if ctx.thorough and not ctx.proof_broken and theorem_names:
@@ -176,7 +179,7 @@ def run_property(pid, tier, seed):
                                            "to the model of the scheme any more (C01-C03 and C11 look at such pairs directly)"))
         if hasattr(mod, "replay_known"):
             mod.replay_known(ctx)
-        if (ctx.proof_broken or ctx.tie_broken) and not ctx.rep.violations and hasattr(mod, "search"):
+        if (ctx.proof_broken or ctx.tie_broken or ctx.soft_broken) and not ctx.rep.violations and hasattr(mod, "search"):
             mod.search(ctx)
     except Tooling:
         raise
